@@ -53,6 +53,8 @@ def run_c17(R, tier, rng):
             exp_rows = [A[i] for i in (range(nr)[s] if isinstance(s, slice) else ([i for i, b in enumerate(s) if b] if isinstance(s[0], bool) else s))]
             if not exp_rows: continue
             C.cmp(f"rows {tag} {s!r}", "rows/" + type(s).__name__, nt, lambda: dense_rows(mk()[idx]), lambda: [kl(a) for a in exp_rows], py=pyb + f"; rl[{s!r}].to_array()")
+            if isinstance(s, list) and isinstance(s[0], bool):      # the mask spelled as a plain Python list
+                C.cmp(f"rows/python-list-mask {tag} {s!r}", "rows/python-list-mask", nt, lambda: dense_rows(mk()[list(s)]), lambda: [kl(a) for a in exp_rows], py=pyb + f"; rl[{s!r}]  (a Python list of bools)")
         for i in sorted({0, nr - 1, -1, -nr}):
             def introw():
                 r = mk()[i]
@@ -121,6 +123,13 @@ def run_c17(R, tier, rng):
             C.cmp(f"ufunc {ufn} {tag} scalar-L {s!r}", "ufunc-scalar-L/" + ufn, nt, lambda: dense_rows(uf(s, mks())), lambda: [kl(uf(s, a)) for a in SA], py=f"rl = from_ragged({safe_rows!r}, {dt}); np.{ufn}({s!r}, rl).to_array()")
             C.cmp(f"ufunc {ufn} {tag} column-R {col!r}", "ufunc-column-R/" + ufn, nt, lambda: dense_rows(uf(mk(), colarr)), lambda: [kl(uf(a, colarr[i, 0])) for i, a in enumerate(A)], py=pyb + f"; np.{ufn}(rl, np.array({col!r})[:, None]).to_array()")
             C.cmp(f"ufunc {ufn} {tag} column-L {col!r}", "ufunc-column-L/" + ufn, nt, lambda: dense_rows(uf(colarr, mks())), lambda: [kl(uf(colarr[i, 0], a)) for i, a in enumerate(SA)], py=f"rl = from_ragged({safe_rows!r}, {dt}); np.{ufn}(np.array({col!r})[:, None], rl).to_array()")
+        if dt in ("int8", "uint8", "float32", "int64"):
+            for sc, scn in ((np.int64(100), "np.int64(100)"), (np.int16(50), "np.int16(50)"), (np.float64(0.1), "np.float64(0.1)"), (np.uint8(200), "np.uint8(200)")):
+                with np.errstate(all="ignore"):
+                    C.cmp(f"ufunc add {tag} numpy-scalar-R {scn}", "ufunc-numpy-scalar-R", nt, lambda: [dense_rows(np.add(mk(), sc)), str(np.add(mk(), sc)._values.dtype)], lambda: [[kl(np.add(a, sc)) for a in A], str(np.add(A[0], sc).dtype)],
+                          py=pyb + f"; np.add(rl, {scn})  (values and dtype)")
+                    C.cmp(f"ufunc subtract {tag} numpy-scalar-L {scn}", "ufunc-numpy-scalar-L", nt, lambda: [dense_rows(np.subtract(sc, mk())), str(np.subtract(sc, mk())._values.dtype)], lambda: [[kl(np.subtract(sc, a)) for a in A], str(np.subtract(sc, A[0]).dtype)],
+                          py=pyb + f"; np.subtract({scn}, rl)  (values and dtype)")
         if dt in ("int64", "float64", "int8") and nr >= 2:
             bigc = np.array([[1e17, 1.0, 3.0, float("inf"), 2.0][(t + i) % 5] for i in range(nr)])[:, None]
             with np.errstate(all="ignore"):
@@ -156,6 +165,16 @@ def run_c17(R, tier, rng):
         if dt != "bool":
             C.cmp(f"sum(axis=-1) {mtag}", "matrix/row-sum", nt, lambda: num(mm().sum(axis=-1), MA.sum(axis=-1)), lambda: kl(MA.sum(axis=-1)), py=pym + "; m.sum(axis=-1)")
             C.cmp(f"sum(axis=0) {mtag}", "matrix/col-sum", nt, lambda: num(mm().sum(axis=0).to_array(), MA.sum(axis=0)), lambda: kl(MA.sum(axis=0)), py=pym + "; m.sum(axis=0).to_array()")
+        if dt != "bool":
+            def after_colsum():
+                m = mm(); s1 = kl(np.asarray(m.sum(axis=0).to_array())); d1 = kl(m.to_array()); r1 = kl(np.asarray(m.sum(axis=-1))); s2 = kl(np.asarray(m.sum(axis=0).to_array()))
+                return [s1 == s2, d1, r1, kl(np.asarray((m + 0).to_array())), kl(np.asarray(m[::-1].to_array()))]
+            C.cmp(f"sum(axis=0) then other reads {mtag}", "matrix/col-sum-then-reads", nt, after_colsum, lambda: [True, kl(MA), kl(MA.sum(axis=-1)), kl(MA + 0), kl(MA[::-1])],
+                  py=pym + "; m.sum(axis=0); m.to_array(); m.sum(axis=-1); m.sum(axis=0) again; (m+0).to_array(); m[::-1].to_array()")
+            def after_colsum_r():
+                r = mk(); s1 = kl(np.asarray(r.sum(axis=0).to_array())); d1 = dense_rows(r); s2 = kl(np.asarray(r.sum(axis=0).to_array()))
+                return [s1 == s2, d1, kl(np.asarray(r.sum(axis=-1)))]
+            C.cmp(f"sum(axis=0) then other reads {tag}", "col-sum-then-reads", nt, after_colsum_r, lambda: [True, [kl(a) for a in A], kl(np.array([a.sum() for a in A]))], py=pyb + "; rl.sum(axis=0); rl.to_array(); rl.sum(axis=0) again; rl.sum(axis=-1)")
         C.cmp(f"any(axis=0) {mtag}", "matrix/col-any", nt, lambda: kl(np.asarray(mm().any(axis=0).to_array(), dtype=bool)), lambda: kl(MA.any(axis=0)), py=pym + "; m.any(axis=0).to_array()")
         C.cmp(f"any/all(axis=-1) {mtag}", "matrix/row-any-all", nt, lambda: [kl(np.asarray(mm().any(axis=-1))), kl(np.asarray(mm().all(axis=-1)))], lambda: [kl(MA.any(axis=-1)), kl(MA.all(axis=-1))], py=pym + "; m.any(axis=-1), m.all(axis=-1)")
         s = al[(t + 1) % len(al)]; s = bool(s) if dt == "bool" else float(s) if dt == "float64" else int(s)
